@@ -3,7 +3,7 @@
 (* conforming values, shared by the conversion models (C02, C03, C13, C16).   *)
 EXTENDS TDesc
 
-FldK(id, name, key, req, ty) == [id |-> id, name |-> name, key |-> key, req |-> req, ty |-> ty]
+FldK(id, name, key, req, ty) == [id |-> id, name |-> name, key |-> key, req |-> req, ty |-> ty, hasd |-> FALSE, dflt |-> [t |-> 0, b |-> <<>>]]
 S(bs) == Scalar(T_STR, bs)
 TyBin == [t |-> T_STR, n |-> "binary", a |-> <<>>]
 I64(n) == Scalar(T_I64, <<0, 0, 0, 0, 0, 0, 0, n>>)
